@@ -66,6 +66,9 @@ def universe():
     # labels that differ although their raw values coincide: tz-aware vs naive stamps, stamps vs their epoch-ns integers
     ns = [1577836800000000000, 1577923200000000000, 1578009600000000000]
     u += [{'$tsz': [IDX, [1.0, 2.0, 3.0], 'UTC']}, {'$tsz': [IDX, [1.0, 2.0, 3.0], 'US/Eastern']}, {'$sr': [ns, [1.0, 2.0, 3.0], 'float64']}, {'$sr': [[{'$dt': i} for i in IDX], [1.0, 2.0, 3.0], 'float64']}]
+    # infinities of both signs among the cells
+    u += [A('float64', [{'$inf': 1}, {'$inf': -1}, 1.0]), A('float64', [{'$inf': 1}, 1.0, 1.0]), {'$ts': [IDX, [{'$inf': 1}, {'$inf': -1}, 3.0]]}, [A('float64', [{'$inf': -1}, {'$inf': 1}])],
+          {'$df': [IDX, ['a', 'b'], [[{'$inf': 1}, 2.0], [3.0, {'$inf': -1}], [5.0, 6.0]]]}]
     # scalars whose == raises inside numpy (out-of-range dates, ints beyond 64 bits against numpy scalars): eq is still a boolean
     u += [{'$np': ['datetime64[D]', '9999-12-31']}, {'$np': ['datetime64[D]', '1000-01-01']}, 2 ** 70, -2 ** 70, [{'$np': ['datetime64[D]', '9999-12-31']}], {'a': 2 ** 70}, {'$np': ['datetime64[ns]', '2020-01-01T00:00:00']}]
     return u
